@@ -31,7 +31,8 @@ PARGS = {
 }
 VARGS = {
     'py3': ('py', '3'), 'pys': ('py', "'s'"), 'pyNone': ('py', 'None'), 'pylist': ('py', '[1]'),
-    'pydict': ('py', "{'k': 1}"), 'pytuple': ('py', '(1, [2])'), 'num': ('py', '7'),
+    'pydict': ('py', "{'k': 1}"), 'pytuple': ('py', '(1, [2])'), 'num': ('py', '7'), 'baretuple': ('py', '1, 2'),
+    'lambda': ('py', 'lambda v: (v, 1)'), 'cond': ('py', '1 if 2 else 3'),
 }
 # earlier results of each type, bound by a call-site let
 EARLIER = {
@@ -112,9 +113,21 @@ def universe(tier):
                 for kw in (None, (pname,)):
                     yield ('param-named-like-rule/%s' % ('kw' if kw else 'pos'), call('T', [arg], kw),
                            [('T', ('rule', [pname], body))] + BASE + ID, None)
+            # the same expression text elsewhere in the grammar, where the name IS the rule (before and after the template)
+            if pname == 'X':
+                other = ('Other', ('rule', None, body))
+                for order in (0, 1):
+                    rules = ([other] if order == 0 else []) + [('T', ('rule', [pname], body))] + ([other] if order else []) + BASE + ID
+                    yield ('param-named-like-rule/same-text-elsewhere', ('seq', call('T', [A], None), ('opt', ('ref', 'Other'))), rules, None)
         yield ('param-named-like-rule/value', call('T', [('py', '7')], None),
                [('T', ('rule', [pname], ('seq', A, ('py', pname), ('call', 'V', [PN, ('py', pname)], [])))),
                 ('V', ('rule', ['a1', 'a2'], ('py', '(a1, a2)')))] + BASE + ID, None)
+    # class members (plain and let) used inside a compound argument
+    for omitted in (False, True):
+        cls = ('class', None, [('n', omitted, ('apply', ('re', '[abc]'), ('py', 'len'))), ('xs', False, call('T', [('rep', A, 'n', 'n')], None)),
+                               ('ys', False, call('T', [('where', ('re', '[abc]'), ('py', 'lambda v: len(v) == n'))], None))])
+        for bn in ('p', '[p,p]', 'p*'):
+            yield ('member-in-argument', ('ref', 'Kc'), [('Kc', cls), ('T', ('rule', ['p'], PBODIES[bn]))] + BASE + ID, None)
     # arguments mentioning names bound at the call site
     site = [
         ('where', ('re', '[ab]'), ('py', 'lambda y: y == w')),
